@@ -245,6 +245,16 @@ func (e hostsafe) genParams(r *core.PRNG) []HSParam {
 	return ps
 }
 
+// deepGrouped: grouped declarations (a, b T) nested a dozen levels or more.
+func deepGrouped(src string) bool {
+	for _, g := range []string{"a, b func(", "a, b, c func(x, y int, ", "a, b struct { "} {
+		if strings.Contains(src, strings.Repeat(g, 12)) {
+			return true
+		}
+	}
+	return false
+}
+
 func (e hostsafe) genCall(r *core.PRNG) HSCall {
 	var c HSCall
 	switch n := r.Intn(10); {
@@ -267,6 +277,11 @@ func (e hostsafe) genCall(r *core.PRNG) HSCall {
 		c.Params = e.genParams(r)
 	}
 	c.Tree, c.Code, c.Imports = r.Chance(1, 4), r.Chance(1, 4), r.Chance(1, 2)
+	if c.Tree && deepGrouped(string(c.Src)) {
+		// the tree dump of deeply nested grouped declarations is the listed known finding (its
+		// canonical unit reproduces it in a process of its own); here it would only stall shards
+		c.Tree = false
+	}
 	c.Via = core.Pick(r, hsVias)
 	if c.Via != "" {
 		c.Depth = r.Intn(3)
@@ -287,6 +302,13 @@ func (e hostsafe) genPlan(r *core.PRNG) *HSPlan {
 	}
 	for i := 0; i < n; i++ {
 		p.Calls = append(p.Calls, e.genCall(r))
+	}
+	for _, f := range p.Files {
+		if deepGrouped(string(f.Data)) {
+			for i := range p.Calls {
+				p.Calls[i].Tree = false
+			}
+		}
 	}
 	// multi-fault sampling (single-fault sweeps are produced in RunUnit)
 	if r.Chance(1, 4) {
